@@ -323,7 +323,7 @@ def main(argv):
         "input_distribution": (result or {}).get("distribution", {}),
         "exhaustive": bool((result or {}).get("exhaustive", False)),
         "explanation": P.get("explanation", ""),
-        "harness_notes": (result or {}).get("notes", []) + notes,
+        "harness_notes": ((result or {}).get("notes") or []) + notes,
         "known_findings_reported": known_lines,
     }
     ev = {
